@@ -8,6 +8,8 @@ import VlsModel.Gen.FnDeriveLdk
 import VlsModel.Gen.FnChannelKeys
 import VlsModel.Gen.FnKeysMgrAux
 import VlsModel.Gen.FnChannel
+import VlsModel.Gen.FnKeysMgrNode
+import VlsModel.Gen.FnDeriveLnd
 import VlsModel.Lemmas.FnGen
 /-
 C18 — `Keys.be64` (the BIP32 child index `LdkKeyDerive::channel_keys` reads off `keys_id[0..8]`,
@@ -865,5 +867,115 @@ theorem C18_fn_manager_getters {SK Ctx EK PK SS H : Type} (pub : Ctx → SK → 
       = tba (hash (ssBytes (ssNew server m.persistence_secret))) := ⟨rfl, rfl, rfl, rfl, rfl, rfl, rfl⟩
 
 end KeysMgrAux
+
+/-! ## my_keys_manager.rs (round 10, b8): the `NodeSigner` / `SignerProvider` entry points (`Gen/FnKeysMgrNode.lean`,
+targets `translate/fn_targets/KeysMgrNode.b8.json`).  `Recipient` is a declared view (`Node | PhantomNode`); secp256k1, the
+hashes and the script constructors are externals over which every theorem quantifies.  The clause of C18 carried here: the
+node-level keys and signatures are functions of the stored `node_secret` (resp. `account_extended_key`,
+`ldk_shutdown_pubkey`) and of the request only — no counter, no channel state, no other field of the manager is read. -/
+section KeysMgrNode
+open VlsModel.Gen.FnKeysMgrNode
+
+/-- **C18_fn_node_signer.** `get_node_id`, `ecdh`, `sign_invoice`, `sign_gossip_message`: for `Recipient::Node` the key used is
+    exactly `node_secret` (multiplied by the tweak for `ecdh`, `Err(())` when the multiplication fails);
+    `Recipient::PhantomNode` is `Err(())` before any key is touched. -/
+theorem C18_fn_node_signer {SK Ctx PK Sc SS Inv RSig H Msg UG Sig DH : Type} (pub : Ctx → SK → PK) (mul : SK → Sc → Option SK)
+    (ssNew : PK → SK → SS) (sh : Inv → List Nat) (hash : List Nat → H) (tba : H → List Nat) (fd : List Nat → Msg)
+    (signRec : Ctx → Msg → SK → RSig) (mh : UG → DH) (dtba : DH → List Nat) (sign : Ctx → Msg → SK → Sig)
+    (m : MyKeysManager SK Ctx PK) (other : PK) (tw : Option Sc) (inv : Inv) (g : UG) :
+    MyKeysManager.get_node_id pub m .Node = .ok (pub m.secp_ctx m.node_secret) ∧
+    MyKeysManager.get_node_id pub m .PhantomNode = .error (.err "()") ∧
+    MyKeysManager.ecdh mul ssNew m .Node other tw
+      = (match tw with
+         | none => .ok (ssNew other m.node_secret)
+         | some t => match mul m.node_secret t with
+                     | some k => .ok (ssNew other k)
+                     | none => .error (.err "()")) ∧
+    MyKeysManager.ecdh mul ssNew m .PhantomNode other tw = .error (.err "()") ∧
+    MyKeysManager.sign_invoice sh hash tba fd signRec m inv .Node
+      = .ok (signRec m.secp_ctx (fd (tba (hash (sh inv)))) m.node_secret) ∧
+    MyKeysManager.sign_invoice sh hash tba fd signRec m inv .PhantomNode = .error (.err "()") ∧
+    MyKeysManager.sign_gossip_message mh dtba fd sign m g = .ok (sign m.secp_ctx (fd (dtba (mh g))) m.node_secret) := by
+  refine ⟨rfl, rfl, ?_, rfl, rfl, rfl, rfl⟩
+  cases tw with
+  | none => rfl
+  | some t =>
+    simp only [MyKeysManager.ecdh, MyKeysManager.get_node_secret]
+    cases mul m.node_secret t <;> rfl
+
+/-- **C18_fn_node_signer_stable.** hence two managers with the same `node_secret` and context (e.g. the manager before and
+    after any number of channel derivations, which only move the counters — `C18_fn_counters_after_derive`) give the same
+    node id and the same ECDH secret. -/
+theorem C18_fn_node_signer_stable {SK Ctx PK Sc SS : Type} (pub : Ctx → SK → PK) (mul : SK → Sc → Option SK)
+    (ssNew : PK → SK → SS) (m m' : MyKeysManager SK Ctx PK) (hs : m.node_secret = m'.node_secret)
+    (hc : m.secp_ctx = m'.secp_ctx) (r : Recipient) (other : PK) (tw : Option Sc) :
+    MyKeysManager.get_node_id pub m r = MyKeysManager.get_node_id pub m' r ∧
+    MyKeysManager.ecdh mul ssNew m r other tw = MyKeysManager.ecdh mul ssNew m' r other tw := by
+  cases r
+  · simp only [MyKeysManager.get_node_id, MyKeysManager.ecdh, MyKeysManager.get_node_secret, hs, hc, and_self]
+  · exact ⟨rfl, rfl⟩
+
+/-- **C18_fn_heartbeat_shutdown.** the heartbeat is signed with the key pair of `account_extended_key.private_key`; the LDK
+    shutdown script is the P2WPKH of the stored `ldk_shutdown_pubkey` -/
+theorem C18_fn_heartbeat_shutdown {SK Ctx PK Sig KP Msg SScr WH : Type} (kp : Ctx → SK → KP) (sfh : List Nat → Msg)
+    (schnorr : Ctx → Msg → KP → Sig) (ser : PK → List Nat) (wh : List Nat → WH) (p2 : WH → SScr)
+    (m : MyKeysManager SK Ctx PK) (hb : List Nat) :
+    MyKeysManager.sign_heartbeat kp sfh schnorr m hb
+      = schnorr m.secp_ctx (sfh hb) (kp m.secp_ctx m.account_extended_key.private_key) ∧
+    MyKeysManager.get_shutdown_scriptpubkey ser wh p2 m = .ok (p2 (wh (ser m.ldk_shutdown_pubkey))) := ⟨rfl, rfl⟩
+
+/-- **C18_fn_no_signer_provider_path2.** the two remaining `SignerProvider` entry points, `get_destination_script` and
+    `read_chan_signer`, are `unimplemented!()` as well (see `C18_fn_no_signer_provider_path`): no channel signer is ever
+    rebuilt from serialized bytes, the only way to one is the derivation from seed and channel id. -/
+theorem C18_fn_no_signer_provider_path2 {SK Ctx PK Scr Sg : Type} (m : MyKeysManager SK Ctx PK) (kid rd : List Nat) :
+    (MyKeysManager.get_destination_script m kid : Rs.M Scr) = .error .panic ∧
+    (MyKeysManager.read_chan_signer m rd : Rs.M Sg) = .error .panic := ⟨rfl, rfl⟩
+
+example : MyKeysManager.get_node_id (fun (c k : Nat) => c + k) ⟨1, 5, ⟨7⟩, 9⟩ .Node = .ok 6 := rfl
+example : MyKeysManager.ecdh (fun (k t : Nat) => if t = 0 then none else some (k * t)) (fun (p k : Nat) => (p, k))
+    (⟨1, 5, ⟨7⟩, 9⟩ : MyKeysManager Nat Nat Nat) .Node 3 (some 0) = .error (.err "()") := rfl
+
+end KeysMgrNode
+
+/-! ## derive.rs (round 10, b8): `derive_key_lnd` itself (`Gen/FnDeriveLnd.lean`; until now an external of the LND bodies).
+One normalisation: the `match network` that yields `coin_type` gets the annotation `u32` rustc infers. -/
+section DeriveLnd
+open VlsModel.Gen.FnDeriveLnd
+
+/-- BIP44 coin type of the LND path -/
+def lndCoin : Network → Option Nat
+  | .Bitcoin => some 0
+  | .Testnet => some 1
+  | .Regtest => some 1
+  | .Signet => some 1
+  | .Testnet4 => none
+
+/-- **C18_fn_derive_key_lnd.** the LND key of (family, index) is the BIP32 path `m/1017'/coin'/family'/0/index` from the
+    master key — a function of (network, master key, family, index) and of nothing else; every step is `unwrap`ped. -/
+theorem C18_fn_derive_key_lnd {Ctx SK PK CN : Type} (hard norm : Nat → Option CN)
+    (dp : Xpriv SK → Ctx → List CN → Option (Xpriv SK)) (fp : Ctx → Xpriv SK → Xpub PK) (ctx : Ctx) (net : Network)
+    (master : Xpriv SK) (fam idx coin : Nat) (hn : lndCoin net = some coin) :
+    derive_key_lnd hard dp norm fp ctx net master fam idx
+      = (do let c1 ← Rs.unwrap (hard 1017); let x1 ← Rs.unwrap (dp master ctx [c1])
+            let c2 ← Rs.unwrap (hard coin); let x2 ← Rs.unwrap (dp x1 ctx [c2])
+            let c3 ← Rs.unwrap (hard fam); let x3 ← Rs.unwrap (dp x2 ctx [c3])
+            let c4 ← Rs.unwrap (norm 0); let x4 ← Rs.unwrap (dp x3 ctx [c4])
+            let c5 ← Rs.unwrap (norm idx); let x5 ← Rs.unwrap (dp x4 ctx [c5])
+            pure ((fp ctx x5).public_key, x5.private_key)) := by
+  cases net <;> simp only [lndCoin, Option.some.injEq, reduceCtorEq] at hn <;> subst hn <;>
+    simp only [derive_key_lnd, pure_bind]
+
+/-- **C18_fn_derive_key_lnd_testnet4.** on `Network::Testnet4` the `match` falls into `_ => unreachable!()`: LND-style
+    derivation panics there before any key is derived (recorded in notes/C18.md; LND is outside the statement of C18). -/
+theorem C18_fn_derive_key_lnd_testnet4 {Ctx SK PK CN : Type} (hard norm : Nat → Option CN)
+    (dp : Xpriv SK → Ctx → List CN → Option (Xpriv SK)) (fp : Ctx → Xpriv SK → Xpub PK) (ctx : Ctx)
+    (master : Xpriv SK) (fam idx : Nat) :
+    derive_key_lnd hard dp norm fp ctx .Testnet4 master fam idx = .error .panic := rfl
+
+example : derive_key_lnd (fun i => some (i + 2 ^ 31)) (fun (x : Xpriv (List Nat)) (_ : Unit) c => some ⟨x.private_key ++ c⟩)
+    (fun i => some i) (fun _ x => (⟨x.private_key⟩ : Xpub (List Nat))) () .Bitcoin ⟨[]⟩ 3 7
+    = .ok ([1017 + 2 ^ 31, 2 ^ 31, 3 + 2 ^ 31, 0, 7], [1017 + 2 ^ 31, 2 ^ 31, 3 + 2 ^ 31, 0, 7]) := rfl
+
+end DeriveLnd
 
 end VlsModel.Props.C18Fn
